@@ -216,8 +216,8 @@ def s_roles(sh) -> str:
     return "S=%s;T=%s;I=%s" % (f(sh.source_tables), f(sh.target_tables), f(sh.intermediate_tables))
 
 
-def s_paths(paths) -> str:
-    return ";".join(sorted({"<".join(s_node(n) for n in p) for p in paths}))
+def s_paths(paths, canon=False) -> str:
+    return ";".join(sorted({"<".join(s_node(n, canon) for n in p) for p in paths}))
 
 
 def table_parents(graphs) -> list:
